@@ -83,7 +83,10 @@ func ResolveStaticCallTarget(info *types.Info, call *ast.CallExpr) (StaticCallTa
 // Only consider pointers to deep types (e.g., `var x *[]int`) as deep type,
 // not pointers to basic types (e.g., `var x *int`) or struct types (e.g., `var x *S`)
 func IsDeep(t types.Type) bool {
-	switch UnwrapPtr(t).(type) {
+	// A type alias (`type A = []*int`) denotes the very same type as its right-hand side, so it
+	// admits deep nilability exactly when that type does.
+	t = types.Unalias(t)
+	switch types.Unalias(UnwrapPtr(t)).(type) {
 	case *types.Slice, *types.Array, *types.Map, *types.Chan, *types.Struct:
 		return true
 	case *types.Basic:
